@@ -6,7 +6,7 @@ HOOK_COMMITS = ["1ce4350", "cf6c482"]
 
 SYM_NOTE = ("Trusted: the reading of the statement written in spec/Val.tla, Shape.tla, TensorOps.tla, Components.tla, Prog.tla (derivatives only by symbolic differentiation of definitions; closed forms cross-checked by TLC on rational instances); the float64 term evaluator and its first-order error bound (Go math on both sides). Shapes / arguments exhaustive within the stated grid; element values sampled (seeded, boundary values included), not exhaustive.")
 SYM_TECH = "TLA+ spec evaluated by TLC as exhaustive-in-bounds case generator; spec -> code replay with float64 assignments"
-TWINS = (" Every replayed case is additionally executed in four twin runs whose tensors, flags and gradients must be bit-identical to the plain run: all inputs untracked; read-only API calls (Slice, Reshape family, Transpose, reductions, Concat / Patch with the tensor as operand ...) interleaved after every instruction, the tensors those calls return being re-read at the end; a second epoch on the same tensor and component objects after ResetGradContext, following a back-propagated first epoch and following an untracked first epoch. Every instruction is framed by a bit-level snapshot of all existing tensors (shape, elements, gradient context).")
+TWINS = (" Every replayed case is additionally executed in three twin runs whose tensors, flags and gradients must be bit-identical to the plain run: read-only API calls (Slice, Reshape family, Transpose, reductions, Concat / Patch with the tensor as operand ...) interleaved after every instruction, the tensors those calls return being re-read at the end; a second epoch on the same tensor and component objects after ResetGradContext, following a back-propagated first epoch and following an untracked first epoch. Every instruction is framed by a bit-level snapshot of all existing tensors (shape, elements, gradient context). All replays run in worker processes that enter the library from one goroutine only; the back-propagation of every case is also recorded through the library's trace sink and validated by TLC (Trace_BPStruct). Differential runs that realise another property's scenario (all inputs untracked: C08; caller slices overwritten: C10) are made by that property's check only.")
 BIG = " Tensors of 1000-16000 elements are covered through parametric templates (spec/Big.tla): one term over the output position per result, proved by TLC (ASSUME TemplatesAgree / GradTemplatesAgree) to unroll to the declarative definition at every position of every shape of the small grid."
 
 def sym(text, design, extra_note=""):
@@ -35,9 +35,9 @@ CHECKS.update({
  "C01": dict(level="model_checking", design="DESIGN.md 3/C01", note=MC_NOTE, technique=MC_TECH,
    text="TLC explores the autograd state machine exhaustively within bounds - every operation DAG, tracked assignment, root, every valid order of backward-edge applications, repeated back-propagations over leaf-sharing graphs - and checks in every state that the machine's gradients equal the definitional total derivative (C01_Total) and that each edge is applied exactly once (C01_Once), over rank-0 tensors and over two small-tensor alphabets with real Jacobians; with the recorded deviation bp_edge_walk (finding D1) TLC must report C01_Total violated. The machine is bound to the code in both directions: every transition into an idle state and TLC -simulate behaviours are replayed on the real library comparing values, flags and gradients of all tensors (gradient tensors handed out earlier must stay bit-identical); pseudo-random 10-12 node DAG skeletons with doubled operands are replayed with symbolic values against the definitional gradient of every tensor; histories recorded from the real library through the hooks (and the back-propagations of the repository's own test suite, harvested with QEEP_VERIF_TRACE) are validated by TLC (Trace_Autograd / Trace_BPStruct)." + KF),
  "C08": dict(level="model_checking", design="DESIGN.md 3/C08", note=MC_NOTE, technique=MC_TECH,
-   text="TLC explores all histories (within bounds) of creation, unary/binary/comparison operations, BackPropagate on any tensor and ResetGradContext(true|false) under the statement's provisos, with the tracking rule, frame (only tensors a back-propagation passes through gain a gradient, untracked roots change nothing), retirement and reset semantics as invariants; every transition is replayed on the real library comparing tracked/spent flags, gradient presence and values of all tensors, and re-run untracked to show forward values are bit-identical."),
+   text="TLC explores all histories (within bounds) of creation, unary/binary/comparison operations, BackPropagate on any tensor and ResetGradContext(true|false) under the statement's provisos, with the tracking rule, frame (only tensors a back-propagation passes through gain a gradient, untracked roots change nothing), retirement and reset semantics as invariants; every transition is replayed on the real library comparing tracked/spent flags, gradient presence and values of all tensors, and re-run untracked to show forward values are bit-identical; the cases of the grids of C02 - C06 and C14 (every operation, shape and argument) are executed tracked and with every input untracked in worker processes and must give bit-identical tensors."),
  "C10": dict(level="model_checking", design="DESIGN.md 3/C10", note=MC_NOTE, technique=MC_TECH + "; environment action Scribble realised by really overwriting caller slices",
-   text="TLC checks the frame properties of the machine (values never change, gradients only change during a back-propagation, tracking only by Reset, the environment action Scribble changes nothing the library depends on) over the operations that take or hand out caller-owned slices, with Scribble enabled between any two calls; the harness replays every transition REALLY overwriting the dimension lists, index ranges, tensor lists, nested data and Shape() results at the TLC-chosen points, compares the full state with the specification and with the run without overwriting (bit-identical). Every symbolic replay of every other property additionally snapshots all tensors around BackPropagate / Update."),
+   text="TLC checks the frame properties of the machine (values never change, gradients only change during a back-propagation, tracking only by Reset, the environment action Scribble changes nothing the library depends on) over the operations that take or hand out caller-owned slices, with Scribble enabled between any two calls; the harness replays every transition REALLY overwriting the dimension lists, index ranges, tensor lists, nested data and Shape() results at the TLC-chosen points, compares the full state with the specification and with the run without overwriting (bit-identical). The two-back-propagation configuration of the machine is replayed with every gradient tensor handed out earlier re-read at the end; the cases of the grids of C02 - C06 and C16 (nested data of every rank, dimension lists, ranges, tensor lists of every operation) are executed once as they are and once with every slice handed to the library overwritten right after the call, and must give bit-identical tensors and gradients. Every symbolic replay of every other property additionally snapshots all tensors around every instruction, BackPropagate and Update."),
 })
 
 CHECKS.update({
